@@ -69,7 +69,11 @@ func draw(t *rapid.T) Case {
 			r := MRec{Ref: -1, Mate: -1, Pos: -1, MapQ: byte(rapid.IntRange(0, 5).Draw(t, "mapq")), Key: rapid.IntRange(0, 6).Draw(t, "key")}
 			if rapid.IntRange(0, 5).Draw(t, "placed") != 0 {
 				r.Ref = in.Refs[rapid.IntRange(0, len(in.Refs)-1).Draw(t, "ref")]
-				r.Pos = rapid.IntRange(0, 6).Draw(t, "pos") * 100
+				// -1: a record that names a reference but has no position (POS 0 in SAM);
+				// it sorts in front of the positioned records of that reference
+				if r.Pos = rapid.IntRange(-1, 6).Draw(t, "pos") * 100; r.Pos < 0 {
+					r.Pos = -1
+				}
 				r.PU = rapid.IntRange(0, 4).Draw(t, "placedUnmapped") == 0
 			}
 			if rapid.Bool().Draw(t, "mate") {
